@@ -35,12 +35,16 @@ theorem finish_recip {L : List (Acct × Node)} {s s0 s' : Sys} {a : Acct} {cons 
   rw [hv, hv0]
   exact this
 
-theorem deliver_msg_TV (hw : WFConfig accts groups) {s : Sys} {a : Acct} {rest : List Stanza} {id : Nat} {peer : Dest}
-    {part : Option Acct} {im : Bool} {encs : List (Option Acct × Ct)} {pl : Option Payload}
+/-- a message stanza is delivered, possibly as a copy `encs'` with the same nonces (damaged in transit) -/
+theorem deliver_msg_TV' (hw : WFConfig accts groups) {s : Sys} {a : Acct} {rest : List Stanza} {id : Nat} {peer : Dest}
+    {part : Option Acct} {im : Bool} {encs encs' : List (Option Acct × Ct)} {pl : Option Payload}
     (hA : AInv accts groups (abs s)) (hT : TV ex accts groups s.submitted (view s))
-    (hq : queueOf s.outbound a = .msg id peer part im encs pl :: rest) :
+    (hq : queueOf s.outbound a = .msg id peer part im encs pl :: rest)
+    (hshape' : DownShape (.msg id peer part im encs' pl))
+    (hctr : encs'.map (fun e => e.2.ctr) = encs.map (fun e => e.2.ctr))
+    (hpark : encs' ≠ encs → ∀ c' out, ¬ OutC (getClient s a) (.msg id peer part im encs' pl) peer part (whoOf peer part) c' out) :
     TV ex accts groups s.submitted
-      (view (clientReceive { s with outbound := insert s.outbound a rest } a (.msg id peer part im encs pl))) := by
+      (view (clientReceive { s with outbound := insert s.outbound a rest } a (.msg id peer part im encs' pl))) := by
   have hmem : Stanza.msg id peer part im encs pl ∈ (view s).outb a := by
     show _ ∈ queueOf s.outbound a; rw [hq]; simp
   obtain ⟨ha, _, _⟩ := hA.outb_ok a _ hmem
@@ -48,14 +52,17 @@ theorem deliver_msg_TV (hw : WFConfig accts groups) {s : Sys} {a : Acct} {rest :
   have hacc : a ∈ (view { s with outbound := insert s.outbound a rest }).accounts := by
     show a ∈ (view s).accounts; rw [hT.acc]; exact ha
   have hgc : getClient { s with outbound := insert s.outbound a rest } a = getClient s a := rfl
-  simp only [clientReceive, hdg.shape.nonempty, Bool.false_eq_true, if_false]
-  have hns : ∀ e ∈ encs, e.2.ctr ∉ (getClient s a).seen.map Prod.snd ∧ e.2.ctr ∉ (getClient s a).seenSK.map Prod.snd := by
+  simp only [clientReceive, hshape'.nonempty, Bool.false_eq_true, if_false]
+  have hnof : ∀ x, nOf x (.msg id peer part im encs' pl) = nOf x (.msg id peer part im encs pl) := by
+    intro x; unfold nOf ctrsOf ctsOf; rw [hctr]
+  have hns : ∀ e ∈ encs', e.2.ctr ∉ (getClient s a).seen.map Prod.snd ∧ e.2.ctr ∉ (getClient s a).seenSK.map Prod.snd := by
     intro e he
-    have h1 : 1 ≤ nOf e.2.ctr (.msg id peer part im encs pl) := nOf_pos_of_mem (st := .msg id peer part im encs pl) he
+    have h1 : 1 ≤ nOf e.2.ctr (.msg id peer part im encs' pl) := nOf_pos_of_mem (st := .msg id peer part im encs' pl) he
+    rw [hnof] at h1
     have h2 := nOf_le_way (accts := accts) hmem e.2.ctr
     exact ((hT.unop a ha e.2.ctr).2 (by omega))
   obtain ⟨c', out, hstep, hs1, hs2, hres⟩ := handleEnc_spec (s := { s with outbound := insert s.outbound a rest }) hacc
-    id peer part im encs pl hdg.shape
+    id peer part im encs' pl hshape'
     (by
       intro ct hct
       obtain ⟨e, he, rfl⟩ := heFirst_mem hct
@@ -66,19 +73,40 @@ theorem deliver_msg_TV (hw : WFConfig accts groups) {s : Sys} {a : Acct} {rest :
       rw [hgc]; exact (hns e he).2)
   rw [hgc] at hs1 hs2 hres
   have hv0 : view { s with outbound := insert s.outbound a rest } = (view s).popOut a rest := view_setOutbound s a rest
+  have hlt : ∀ e ∈ encs', e.2.ctr < (view s).nextCtr := by
+    intro e he
+    have : e.2.ctr ∈ encs'.map (fun e => e.2.ctr) := List.mem_map.mpr ⟨e, he, rfl⟩
+    rw [hctr] at this
+    obtain ⟨e0, he0, h0⟩ := List.mem_map.mp this
+    rw [← h0]
+    exact (hdg.cts e0 he0).2
   rcases hres with ⟨hsame, hab, _⟩ | hc
   · have hh := Handled.single (im := im) (pl := pl) hsame hab hs1 hs2
     have hrs := RecipStep.ofHandled (V := view s) (x := a) (cons := [.msg id peer part im encs pl]) (rest := rest) hT ha hq hh
       rfl rfl rfl rfl rfl rfl
       (fun e he => ⟨he, fun st hst => by rw [List.mem_singleton] at hst; subst hst; simp [stanzaIq]⟩)
       (fun e he _ _ => he) (hT.clients a).iqKeys (fun _ _ => rfl) (fun _ => rfl) (fun e he => he) (hT.clients a).pendKeys
-      (hT.ans a).2 (fun _ => rfl) (fun _ => rfl)
+      (hT.ans a).2 (fun _ => rfl) (fun x => by simp only [sumMap_cons, sumMap_nil']; rw [hnof]; rfl)
       (fun st hst id' r => by rw [List.mem_singleton] at hst; subst hst; exact ⟨rfl, rfl⟩)
-      (fun st hst => by rw [List.mem_singleton] at hst; subst hst; exact hdg.cts)
+      (fun st hst => by rw [List.mem_singleton] at hst; subst hst; exact hlt)
     exact finish_recip hw.1 hT hrs hv0 hstep
-  · have hrs := RecipStep.ofPark (V := view s) (x := a) (rest := rest) hT ha rfl hq
-      (fun e he => (hA.client a).iq_lt e.1 e.2 he) hc
-    exact finish_recip hw.1 hT hrs hv0 hstep
+  · -- parking needs the stanza as it was queued
+    by_cases hee : encs' = encs
+    · subst hee
+      have hrs := RecipStep.ofPark (V := view s) (x := a) (rest := rest) hT ha rfl hq
+        (fun e he => (hA.client a).iq_lt e.1 e.2 he) hc
+      exact finish_recip hw.1 hT hrs hv0 hstep
+    · exact absurd hc (hpark hee c' out)
+
+theorem deliver_msg_TV (hw : WFConfig accts groups) {s : Sys} {a : Acct} {rest : List Stanza} {id : Nat} {peer : Dest}
+    {part : Option Acct} {im : Bool} {encs : List (Option Acct × Ct)} {pl : Option Payload}
+    (hA : AInv accts groups (abs s)) (hT : TV ex accts groups s.submitted (view s))
+    (hq : queueOf s.outbound a = .msg id peer part im encs pl :: rest) :
+    TV ex accts groups s.submitted
+      (view (clientReceive { s with outbound := insert s.outbound a rest } a (.msg id peer part im encs pl))) := by
+  have hmem : Stanza.msg id peer part im encs pl ∈ (view s).outb a := by
+    show _ ∈ queueOf s.outbound a; rw [hq]; simp
+  exact deliver_msg_TV' hw hA hT hq (hT.downs a _ hmem).shape rfl (fun h => absurd rfl h)
 
 end
 
@@ -320,7 +348,7 @@ theorem onIqResult_pending (hw : WFConfig accts groups) {s : Sys} {a : Acct} {hd
       intro st hst id r
       rw [List.mem_singleton] at hst; subst hst
       exact ⟨(hplain id r).2.2.2, (hplain id r).2.2.1⟩)
-    (fun st hst => (hparked st hst).2.1)
+    (fun st hst e he => ((hparked st hst).2.1 e he).2)
   exact finish_recip hw.1 hT hrs hv0 hfull
 
 end
